@@ -102,7 +102,7 @@ func Run(c *core.Check) {
 		}
 	})
 	// nested: child elements whose own content comes from a reduced alphabet, surrounded by text
-	small := []string{"t", " ", "\n ", "<![CDATA[ x ]]>", "<!--c-->", "<c/>", "&amp;", " u "}
+	small := []string{"t", " ", "\n ", "<![CDATA[ x ]]>", "<!--c-->", "<c/>", "&amp;", " u ", "<?p d?>", "<?pi a=\"&quot;x\"?>"}
 	seq2 := core.Sequences{K: len(small), MaxLen: c.Pick(2, 3)}
 	outer := []string{"", " ", "t", " t ", "\n", "<!--c-->", "<![CDATA[y]]>"}
 	c.Family("nested").Bound = fmt.Sprintf("outer text x child content sequences of <=%d of %d items", seq2.MaxLen, len(small))
